@@ -27,6 +27,10 @@ type Interp struct {
 	MaxDepth int
 	globals  *activation
 	root     *scope
+	// frames mirrors the VM's call-frame stack (frame 0 = main code): used only to compute the dynamic
+	// tag of recorded finding D1 (a cell for a variable two or more function levels up is taken from the
+	// frame that many positions back on the CALL stack).
+	frames []*activation
 	// LenientNames: an undefined name makes the run undecided instead of being a harness error (used by
 	// the incremental monitor, where a failed piece can skip declarations that later pieces refer to).
 	LenientNames bool
@@ -44,6 +48,7 @@ type activation struct {
 	cells  map[any]*cell // key: declaration site (pointer to the declaring node, or param key)
 	defers []*Partial
 	fn     *Closure
+	level  int // lexical function nesting level (0 = main program)
 }
 
 type scope struct {
@@ -144,6 +149,7 @@ func (s *scope) cellOf(name string) (*cell, bool) {
 }
 
 var builtinNames = map[string]bool{
+	"spawn": true,
 	"print": true, "len": true, "type": true, "keys": true, "sorted": true, "try": true, "error": true,
 	"string": true, "reversed": true, "any": true, "all": true,
 }
@@ -160,6 +166,7 @@ func (in *Interp) Start() {
 	act := &activation{cells: map[any]*cell{}}
 	in.globals = act
 	in.root = newScope(nil, act)
+	in.frames = []*activation{act}
 }
 
 // RunPiece evaluates more top-level statements in the environment left by earlier pieces (the way a
@@ -308,6 +315,7 @@ func (in *Interp) exec(st Stmt, sc *scope) (Value, ctl) {
 		cl.v = nv
 		return NilV{}, ctlNone
 	case *FuncDecl:
+		in.checkDeepCapture(s.F, sc)
 		clo := &Closure{Fn: s.F, Env: sc}
 		if sc == in.root {
 			cl, _ := sc.cellOf(s.F.Name)
@@ -837,6 +845,7 @@ func (in *Interp) eval(e Expr, sc *scope) Value {
 		}
 		return s
 	case *FuncLit:
+		in.checkDeepCapture(x, sc)
 		return &Closure{Fn: x, Env: sc}
 	case *IfExpr:
 		v, c := in.evalIf(x, sc)
@@ -1145,6 +1154,14 @@ func (in *Interp) getAttr(obj Value, name string) Value {
 		case "error", "message":
 			return &BoundMethod{Recv: obj, Name: name}
 		}
+	case *Closure:
+		if name == "spawn" {
+			return &BoundMethod{Recv: obj, Name: name}
+		}
+	case *ThreadV:
+		if name == "wait" {
+			return &BoundMethod{Recv: obj, Name: name}
+		}
 	}
 	panic(typeErr("attribute %q not found on %s object", name, TypeName(obj)))
 }
@@ -1193,7 +1210,16 @@ func (in *Interp) callClosure(clo *Closure, args []Value) (result Value) {
 		panic(budgetExceeded{})
 	}
 	defer func() { in.depth-- }()
-	act := &activation{cells: map[any]*cell{}, fn: clo}
+	act := &activation{cells: map[any]*cell{}, fn: clo, level: clo.Env.act.level + 1}
+	in.frames = append(in.frames, act)
+	framePopped := false
+	popFrame := func() {
+		if !framePopped {
+			framePopped = true
+			in.frames = in.frames[:len(in.frames)-1]
+		}
+	}
+	defer popFrame()
 	fs := newScope(clo.Env, act)
 	for i, p := range fn.Params {
 		var v Value
@@ -1224,7 +1250,12 @@ func (in *Interp) callClosure(clo *Closure, args []Value) (result Value) {
 		_ = c
 		result = v
 	}()
-	// deferred calls run LIFO, also when the body failed; a failing deferred call replaces the outcome
+	// deferred calls run LIFO, also when the body failed; a failing deferred call replaces the outcome.
+	// (After a normal return the VM has already left the callee's frame when they run; after a failure
+	// it has not.)
+	if rerr == nil {
+		popFrame()
+	}
 	for _, p := range act.defers {
 		func() {
 			defer func() {
@@ -1295,4 +1326,102 @@ func (in *Interp) Globals() map[string]string {
 		}
 	}
 	return res
+}
+
+// checkDeepCapture sets the dynamic tag "deep-capture-off-stack" when creating this closure needs a
+// variable that lives two or more function levels up while the frame that many positions back on the
+// call stack is not the activation that owns the variable (recorded finding D1: the implementation
+// takes the cell from the call stack, not from the lexical environment).
+func (in *Interp) checkDeepCapture(fl *FuncLit, sc *scope) {
+	newLevel := sc.act.level + 1
+	if newLevel < 2 {
+		return
+	}
+	for _, name := range FreeNames(fl) {
+		dsc, _, ok := sc.lookup(name)
+		if !ok || dsc.act == in.globals {
+			continue
+		}
+		d := newLevel - dsc.act.level
+		if d < 2 {
+			continue
+		}
+		in.tag("deep-capture")
+		idx := len(in.frames) - 1 - (d - 1)
+		if idx < 0 || in.frames[idx] != dsc.act {
+			in.tag("deep-capture-off-stack")
+		}
+	}
+}
+
+// CallValue calls a function value from the host after the program has run (vm.Call).
+func (in *Interp) CallValue(f Value, args []Value) (res Value, rerr *RErr, ok bool) {
+	defer func() {
+		if r := recover(); r != nil {
+			switch e := r.(type) {
+			case *RErr:
+				rerr = e
+				ok = true
+			case budgetExceeded:
+				in.Over = true
+				ok = false
+			default:
+				panic(r)
+			}
+		}
+	}()
+	res = in.call(f, args)
+	return res, nil, !in.Tags["undecided"]
+}
+
+// GlobalValue returns the current value of a global variable.
+func (in *Interp) GlobalValue(name string) (Value, bool) {
+	if in.root == nil {
+		return nil, false
+	}
+	site, ok := in.root.names[name]
+	if !ok {
+		return nil, false
+	}
+	c := in.globals.cells[site]
+	if c == nil {
+		return nil, false
+	}
+	return c.v, true
+}
+
+// WithFreshStack runs f as a spawned goroutine's VM would: on a call stack of its own.
+func (in *Interp) WithFreshStack(f func()) {
+	saved := in.frames
+	in.frames = []*activation{{cells: map[any]*cell{}, level: -1}}
+	defer func() { in.frames = saved }()
+	f()
+}
+
+// spawn models spawn(f, args...): the call runs to completion on a call stack of its own.
+func (in *Interp) spawn(f Value, args []Value) *ThreadV {
+	t := &ThreadV{}
+	if _, ok := f.(*Closure); !ok {
+		in.tag("undecided")
+		return t
+	}
+	in.WithFreshStack(func() {
+		defer func() {
+			if r := recover(); r != nil {
+				if e, ok := r.(*RErr); ok && e.Cat != "panic" {
+					t.Err = e
+					return
+				}
+				if e, ok := r.(*RErr); ok && e.Cat == "panic" {
+					// a Go panic inside a spawned goroutine: recovered there; what wait() then yields is not pinned
+					in.tag("undecided")
+					t.Err = e
+					return
+				}
+				panic(r)
+			}
+		}()
+		t.Res = in.call(f, args)
+	})
+	return t
 }
